@@ -260,8 +260,118 @@ def gen_huge_lineage(rng):
     return versions, steps
 
 
+def _pad_to(m, start_num, bits, rng):
+    """Append padding fields to message m so that it grows by exactly `bits` bits."""
+    num = start_num
+    k = 0
+    while bits > 0:
+        if bits >= 64 and rng.chance(0.5):
+            n = min(bits // 8, 8000)
+            t = sg.Array(sg.Byte(), n, False)
+            used = n * 8
+        else:
+            w = min(bits, rng.choice([1, 3, 7, 8, 13, 16, 31, 32, 33, 57, 64]))
+            t = sg.Uint(w) if rng.chance(0.6) else sg.Int(w)
+            used = w
+        m.fields.append(sg.Field(num, "p_" + sg.letters(k) + sg.letters(num), t))
+        num += 1
+        k += 1
+        bits -= used
+    return num
+
+
+def gen_boundary_lineage(rng):
+    """Targeted numeric coincidences: announced sizes / capacities exactly at
+    and around powers of two, every prefix bit offset, skip distances that are
+    (not) multiples of 8 and 32, and 'interesting' followers (64-bit integers
+    at odd offsets, batch-copied integer arrays, bool arrays, enums, aliases)
+    right behind the extended region."""
+    r = rng
+    s = sg.Schema("pkt")
+    s.counter = 50
+    off = r.randint(0, 7)
+    target = r.choice([255, 256, 257, 511, 512, 513, 1023, 1024, 1025, 2047, 2048, 4095, 4096, 8191, 8192, 16383, 16384, 32767, 32768, 32769])
+    target += r.choice([0, 0, 0, -1, 1, -8, 8])
+    enum = sg.Enum("Enma", 3, [("ENMA_%s" % sg.letters(i).upper(), v) for i, v in enumerate([0, 5, 1, 2, 7, 3, 4, 6])])
+    alias = sg.Alias("Alsb", sg.Int(r.choice([7, 24, 33, 64])))
+    row = sg.Alias("Alsc", sg.Array(sg.Uint(r.choice([3, 8, 16])), r.randint(1, 3), r.chance(0.5)))
+    follower = r.choice(
+        [
+            lambda: sg.Int(64),
+            lambda: sg.Uint(r.choice([57, 59, 63, 64])),
+            lambda: sg.Int(r.choice([2, 9, 31, 33])),
+            lambda: sg.Array(sg.Bool(), r.choice([1, 5, 9]), r.chance(0.3)),
+            lambda: sg.Array(sg.Int(r.choice([8, 16, 32, 64])), r.randint(1, 4), r.chance(0.3)),
+            lambda: sg.Array(sg.Uint(r.choice([8, 16, 32, 64])), r.randint(1, 4), r.chance(0.3)),
+            lambda: enum,
+            lambda: alias,
+            lambda: sg.Array(row, r.randint(1, 3), r.chance(0.5)),
+            lambda: sg.Array(enum, r.randint(1, 4), False),
+            lambda: sg.Bool(),
+            lambda: sg.Byte(),
+        ]
+    )()
+    grow_bits = r.choice([1, 7, 8, 9, 15, 16, 17, 31, 32, 33, 64, 128])
+    kind = r.choice(["msg_s2", "msg_s1", "arr_s2", "arr_s1", "elem"])
+    root1 = sg.Message("Packet", r.chance(0.5))
+    head = []
+    if off:
+        head.append(sg.Field(1, "x_head", sg.Uint(off)))
+    versions = []
+    if kind.startswith("msg") or kind == "elem":
+        # an extensible message whose announced size hits `target` in S1 or in S2
+        inner1 = sg.Message("Msga", True)
+        size1 = (target - grow_bits) if kind == "msg_s2" else target
+        size1 = max(17, min(size1, 60000))
+        nxt = _pad_to(inner1, 1, size1 - 16, r)
+        holder_t = inner1
+        if kind == "elem":
+            holder_t = sg.Array(inner1, r.randint(2, 3), r.chance(0.5))
+        root1.fields = head + [sg.Field(2, "x_ext", holder_t), sg.Field(3, "x_follow", follower), sg.Field(4, "x_tail", sg.Uint(r.choice([1, 8, 13])))]
+        s.defs = [enum, alias, row, inner1, root1]
+        versions.append(s)
+        s2 = s.clone()
+        _pad_to(s2.find("Msga"), nxt + r.randint(0, 3), grow_bits, r)
+        versions.append(s2)
+        steps = [[{"step": "append", "message": "Msga", "fields": 1, "depth": 1, "boundary": target, "offset": off}]]
+        if r.chance(0.3):
+            s3 = s2.clone()
+            m3 = s3.find("Msga")
+            _pad_to(m3, max(f.num for f in m3.fields) + 1, r.choice([1, 8, 24]), r)
+            versions.append(s3)
+            steps.append([{"step": "append", "message": "Msga", "fields": 1, "depth": 1}])
+    else:
+        ebits_t = r.choice([sg.Bool(), sg.Uint(1), sg.Uint(3), sg.Byte(), sg.Int(16), sg.Uint(32), sg.Int(64), sg.Uint(7)])
+        eb = sg.nbits(ebits_t)
+        maxcap = max(2, min(65535, (60000 - 200) // eb))
+        cap2 = min(target, maxcap)
+        grow = max(1, min(cap2 - 1, r.choice([1, 1, 2, 7, 8, 255, 256])))
+        cap1 = cap2 - grow if kind == "arr_s2" else cap2
+        cap2 = cap2 if kind == "arr_s2" else min(maxcap + 0, cap1 + grow)
+        if cap2 <= cap1:
+            cap2 = cap1 + 1
+        arr1 = sg.Array(ebits_t, cap1, True)
+        use_alias = r.chance(0.4)
+        at = sg.Alias("Alsd", arr1) if use_alias else arr1
+        root1.fields = head + [sg.Field(2, "x_ext", at), sg.Field(3, "x_follow", follower), sg.Field(4, "x_tail", sg.Uint(r.choice([1, 8, 13])))]
+        s.defs = [enum, alias, row] + ([at] if use_alias else []) + [root1]
+        versions.append(s)
+        s2 = s.clone()
+        t2 = s2.find("Packet").fields[1 if off else 0].type
+        (t2.target if t2.kind == "alias" else t2).cap = cap2
+        versions.append(s2)
+        steps = [[{"step": "grow", "from": cap1, "to": cap2, "depth": 1, "boundary": target, "offset": off}]]
+    if not all(sg.nbits(m) <= 65535 for v in versions for m in v.all_messages()):
+        return None, None
+    return versions, steps
+
+
 def gen_lineage(seed: int, scale: int = 1):
     rng = Rng(seed, "lineage")
+    if Rng(seed, "boundary").chance(0.15):
+        versions, steps = gen_boundary_lineage(rng.sub("boundary"))
+        if versions and len(versions) >= 2:
+            return versions, steps
     if Rng(seed, "huge").chance(0.06):
         versions, steps = gen_huge_lineage(rng.sub("huge"))
         if len(versions) >= 2:
